@@ -18,6 +18,7 @@ import (
 	"fmt"
 	"go/token"
 	"go/types"
+	"strings"
 
 	"golang.org/x/tools/go/ssa"
 
@@ -415,46 +416,219 @@ func c19DeleteTolerance(g *ssa.Function, d *ssa.Call) (tolerated, notSwallowed b
 	return
 }
 
-// c19Site is one API invocation performed by executing call w of the analysed function.
-type c19Site struct {
-	In   *ssa.Function // function containing the invocation
+// c19Hop is one step of a call chain: call Call located in function In.
+type c19Hop struct {
+	In   *ssa.Function
 	Call *ssa.Call
 }
 
-// c19Sites lists the invocations satisfying pred that call w performs: w itself, inside a
-// function literal w receives, or inside the repository function w calls (and its literals).
-func c19Sites(w *ssa.Call, pred func(ssa.CallInstruction) bool) []c19Site {
-	if pred(w) {
-		return []c19Site{{w.Parent(), w}}
-	}
-	var fns []*ssa.Function
-	for _, f := range c13ClosureArgs(w) {
-		fns = append(fns, eng.WithClosures(f)...)
-	}
-	if g := w.Call.StaticCallee(); g != nil && g.Blocks != nil && g.Pkg != nil && eng.IsRepoPkg(g.Pkg.Pkg.Path()) {
-		fns = append(fns, eng.WithClosures(g)...)
-	}
-	var out []c19Site
-	for _, f := range fns {
-		for _, ci := range eng.Calls(f) {
-			if d, ok := ci.(*ssa.Call); ok && pred(ci) {
-				out = append(out, c19Site{f, d})
+// c19ChainDepth bounds the number of hops below the analysed function.
+const c19ChainDepth = 6
+
+// c19Chains lists the call chains by which executing call w of the analysed function performs
+// an invocation satisfying pred: chain[0] is w itself, chain[i+1] is a call inside a function
+// literal (or bound method) chain[i].Call receives or inside the repository function it calls,
+// the last hop is the invocation. However many helpers / methods / retry wrappers a
+// refactoring puts between the analysed function and the API call, the chain names them all.
+// One chain (the longest, i.e. the one naming every hop) is kept per invocation.
+func c19Chains(w *ssa.Call, pred func(ssa.CallInstruction) bool) [][]c19Hop {
+	var all [][]c19Hop
+	var rec func(d *ssa.Call, prefix []c19Hop, onPath map[*ssa.Function]bool)
+	rec = func(d *ssa.Call, prefix []c19Hop, onPath map[*ssa.Function]bool) {
+		chain := append(append([]c19Hop{}, prefix...), c19Hop{d.Parent(), d})
+		if pred(d) {
+			all = append(all, chain)
+			return
+		}
+		if len(chain) > c19ChainDepth {
+			return
+		}
+		var fns []*ssa.Function
+		for _, f := range c13ClosureArgs(d) {
+			fns = append(fns, eng.WithClosures(f)...)
+		}
+		if g := d.Call.StaticCallee(); g != nil && g.Blocks != nil {
+			if (g.Pkg != nil && eng.IsRepoPkg(g.Pkg.Pkg.Path())) || g.Parent() != nil {
+				fns = append(fns, eng.WithClosures(g)...)
 			}
+		}
+		for _, f := range fns {
+			if onPath[f] {
+				continue
+			}
+			onPath[f] = true
+			for _, ci := range eng.Calls(f) {
+				if x, ok := ci.(*ssa.Call); ok {
+					rec(x, chain, onPath)
+				}
+			}
+			delete(onPath, f)
+		}
+	}
+	rec(w, nil, map[*ssa.Function]bool{w.Parent(): true})
+	best := map[*ssa.Call]int{}
+	for i, ch := range all {
+		site := ch[len(ch)-1].Call
+		if j, ok := best[site]; !ok || len(ch) > len(all[j]) {
+			best[site] = i
+		}
+	}
+	var out [][]c19Hop
+	for i, ch := range all {
+		if best[ch[len(ch)-1].Call] == i {
+			out = append(out, ch)
 		}
 	}
 	return out
 }
 
-// c19InCaller re-expresses an operand of an invocation performed by w in the context of
-// w's function: a plain parameter of the helper w calls becomes w's actual argument.
-func c19InCaller(w *ssa.Call, v ssa.Value) ssa.Value {
+// c19RefUp re-expresses an operand v of the last hop of a chain in the context of the analysed
+// function (chain[0].In): values captured by function literals are resolved to the enclosing
+// function's (c13Path), a plain parameter of a helper on the chain becomes the actual argument
+// of the hop that calls the helper, the receiver of a method value `x.m` handed on as a
+// function becomes x, and a field of a struct value built locally (the state a closure was
+// turned into) becomes the value stored into that field — repeatedly, up the chain.
+func c19RefUp(chain []c19Hop, v ssa.Value) c13Ref {
 	r := c13RefOf(v)
-	if p, ok := r.Root.(*ssa.Parameter); ok && r.Path == "" && p.Parent() == w.Call.StaticCallee() {
-		if k := c13ParamIndex(p); k >= 0 && k < len(w.Call.Args) {
-			return w.Call.Args[k]
+	cur := len(chain) - 1
+	join := func(ar c13Ref) { r = c13Ref{ar.Root, c13Join(ar.Path, r.Path)} }
+	for step := 0; step < 32; step++ {
+		switch root := r.Root.(type) {
+		case *ssa.Parameter:
+			up := -1
+			for j := cur - 1; j >= 0; j-- {
+				if chain[j].Call.Call.StaticCallee() == root.Parent() {
+					up = j
+					break
+				}
+			}
+			k := c13ParamIndex(root)
+			if up < 0 || k < 0 || k >= len(chain[up].Call.Call.Args) {
+				return r
+			}
+			join(c13RefOf(chain[up].Call.Call.Args[k]))
+			cur = up
+			continue
+		case *ssa.FreeVar:
+			// the synthetic wrapper of a method value: its free variable is the receiver
+			// expression at the site that created the method value
+			f := root.Parent()
+			if f == nil || f.Synthetic == "" {
+				return r
+			}
+			var bound ssa.Value
+			up := -1
+			for j := cur - 1; j >= 0 && bound == nil; j-- {
+				for _, a := range chain[j].Call.Call.Args {
+					mc, ok := c13StripConvert(a).(*ssa.MakeClosure)
+					if !ok || mc.Fn != ssa.Value(f) {
+						continue
+					}
+					for i, fv := range f.FreeVars {
+						if fv == root && i < len(mc.Bindings) {
+							bound, up = mc.Bindings[i], j
+						}
+					}
+				}
+			}
+			if bound == nil {
+				return r
+			}
+			join(c13RefOf(bound))
+			cur = up
+			continue
+		}
+		// field of a struct built locally: the single value stored into that field
+		val, rest, ok := c19LocalField(r)
+		if !ok {
+			return r
+		}
+		ar := c13RefOf(val)
+		r = c13Ref{ar.Root, c13Join(ar.Path, rest)}
+	}
+	return r
+}
+
+// c19LocalField resolves the first field step of a reference rooted at a local struct (an
+// alloc, or a load of one) to the only value ever stored into that field.
+func c19LocalField(r c13Ref) (ssa.Value, string, bool) {
+	if r.Path == "" {
+		return nil, "", false
+	}
+	first, rest := r.Path, ""
+	if i := strings.Index(r.Path, "."); i >= 0 {
+		first, rest = r.Path[:i], r.Path[i+1:]
+	}
+	al, _ := r.Root.(*ssa.Alloc)
+	if ld, ok := r.Root.(*ssa.UnOp); ok && ld.Op == token.MUL {
+		al, _ = ld.X.(*ssa.Alloc)
+	}
+	if al == nil || al.Referrers() == nil {
+		return nil, "", false
+	}
+	var val ssa.Value
+	n := 0
+	for _, ref := range *al.Referrers() {
+		fa, ok := ref.(*ssa.FieldAddr)
+		if !ok || c13FieldName(al.Type(), fa.Field) != first || fa.Referrers() == nil {
+			continue
+		}
+		for _, rr := range *fa.Referrers() {
+			if st, isSt := rr.(*ssa.Store); isSt && st.Addr == ssa.Value(fa) {
+				val = st.Val
+				n++
+			}
 		}
 	}
-	return v
+	if n != 1 {
+		return nil, "", false
+	}
+	return val, rest, true
+}
+
+// c19ChainTolerance decides the handling of the API delete's outcome along a chain, level by
+// level below the analysed function (whose own handling c19ErrorGates decides): each level
+// sees the error of the hop it executes. NotFound must be turned into nil at some level; at no
+// level may another failure become a nil return; and no level may return nil without having
+// executed a call that performs the delete.
+func c19ChainTolerance(chain []c19Hop, pred func(ssa.CallInstruction) bool) (tolerated, kept, performed bool) {
+	kept, performed = true, true
+	for i := 1; i < len(chain); i++ {
+		h := chain[i]
+		t, k := c19DeleteTolerance(h.In, h.Call)
+		tolerated = tolerated || t
+		kept = kept && k
+		var perf []ssa.Instruction
+		for _, ci := range eng.Calls(h.In) {
+			if x, ok := ci.(*ssa.Call); ok && (x == h.Call || c13Performs(ci, pred, 3)) {
+				perf = append(perf, x)
+			}
+		}
+		errIdx := c13ErrIdx(h.In)
+		skip := eng.ReachFromEntry(h.In, eng.PathQuery{
+			Target: func(x ssa.Instruction) bool {
+				ret, ok := x.(*ssa.Return)
+				if !ok || ret.Block() == h.In.Recover {
+					return false
+				}
+				if errIdx < 0 {
+					return true
+				}
+				ev := c13Returned(ret, errIdx)
+				return ev == nil || eng.IsNilConst(ev)
+			},
+			Avoid: func(x ssa.Instruction) bool {
+				for _, q := range perf {
+					if x == q {
+						return true
+					}
+				}
+				return false
+			},
+		})
+		performed = performed && skip == nil
+	}
+	return
 }
 
 func c19R3(c *eng.Ctx, local c19Local, performers c19Performers, inSet c19InSet, isAPIDelete func(ssa.CallInstruction) bool, storeIface *types.Interface) {
@@ -464,7 +638,7 @@ func c19R3(c *eng.Ctx, local c19Local, performers c19Performers, inSet c19InSet,
 		if fn == nil {
 			continue
 		}
-		apis := performers(fn, isAPIDelete, 1)
+		apis := performers(fn, isAPIDelete, 3)
 		var locals []ssa.Instruction
 		eng.Instrs(fn, func(x ssa.Instruction) {
 			if local(name)(x) {
@@ -479,18 +653,32 @@ func c19R3(c *eng.Ctx, local c19Local, performers c19Performers, inSet c19InSet,
 			c.Fail("R3", fn, "API delete before the local delete", fn.Pos(), "no delete on the local store found")
 			continue
 		}
+		own := map[*ssa.Function]bool{}
+		for _, f := range eng.WithClosures(fn) {
+			own[f] = true
+		}
+		chainsOf := map[*ssa.Call][][]c19Hop{}
+		n := 0
 		for k, w := range apis {
 			why := c19ErrorGates(c, fn, w, func(x ssa.Instruction) bool { return local(name)(x) }, "the local delete")
 			c.Check("R3", fn, fmt.Sprintf("API delete#%d: error ⇒ returned, no local delete", k+1), w.Pos(), why == "", c13Why("a failed API delete must leave the local state in place and be reported", why))
-			// NotFound tolerated, other errors kept — decided inside the function that invokes the API
-			n := 0
-			for _, site := range c19Sites(w, isAPIDelete) {
+			// NotFound tolerated, other errors kept — decided in the functions between the analysed
+			// function and the API invocation (function literal of the retry helper, extracted
+			// methods), level by level
+			chainsOf[w] = c19Chains(w, isAPIDelete)
+			for _, ch := range chainsOf[w] {
 				n++
-				tol, kept := c19DeleteTolerance(site.In, site.Call)
-				c.Check("R3", site.In, fmt.Sprintf("API delete#%d: NotFound tolerated", n), site.Call.Pos(), tol, "a condition that is already gone from the API server must count as deleted (IsNotFound ⇒ nil), otherwise the local copy stays and is flushed back")
-				c.Check("R3", site.In, fmt.Sprintf("API delete#%d: other errors are returned", n), site.Call.Pos(), kept, "a nil return is reachable from the API delete over an edge that is neither err == nil nor IsNotFound(err)")
+				site := ch[len(ch)-1]
+				at := site.In // a site moved out of the method's own literals is reported against the method
+				if !own[at] {
+					at = fn
+				}
+				tol, kept, performed := c19ChainTolerance(ch, isAPIDelete)
+				c.Check("R3", at, fmt.Sprintf("API delete#%d: NotFound tolerated", n), site.Call.Pos(), tol, "a condition that is already gone from the API server must count as deleted (IsNotFound ⇒ nil), otherwise the local copy stays and is flushed back")
+				c.Check("R3", at, fmt.Sprintf("API delete#%d: other errors are returned", n), site.Call.Pos(), kept, "a nil return is reachable from the API delete over an edge that is neither err == nil nor IsNotFound(err)")
+				c.Check("R3", at, fmt.Sprintf("API delete#%d: performed whenever nil is reported", n), site.Call.Pos(), performed, "a function between "+name+" and the API invocation can return nil without having executed the delete: the local delete follows although the condition is still persisted")
 			}
-			if n == 0 {
+			if len(chainsOf[w]) == 0 {
 				c.Undecided("R3", fn, fmt.Sprintf("API delete#%d: NotFound tolerated", k+1), w.Pos(), "cannot locate the API invocation inside the call")
 			}
 		}
@@ -502,8 +690,8 @@ func c19R3(c *eng.Ctx, local c19Local, performers c19Performers, inSet c19InSet,
 				ok := false
 				la := eng.Args(l.(ssa.CallInstruction))
 				for _, w := range apis {
-					for _, site := range c19Sites(w, isAPIDelete) {
-						if a := eng.Args(site.Call); len(a) >= 2 && len(la) == 2 && c13RefOf(c19InCaller(w, a[1])) == c13RefOf(la[1]) {
+					for _, ch := range chainsOf[w] {
+						if a := eng.Args(ch[len(ch)-1].Call); len(a) >= 2 && len(la) == 2 && c19RefUp(ch, a[1]) == c13RefOf(la[1]) {
 							ok = true
 						}
 					}
@@ -553,8 +741,8 @@ func c19R3(c *eng.Ctx, local c19Local, performers c19Performers, inSet c19InSet,
 		}
 		for k, w := range apis {
 			named := false
-			for _, site := range c19Sites(w, isAPIDelete) {
-				if a := eng.Args(site.Call); len(a) >= 2 && sl.DerivesFrom(c19InCaller(w, a[1]), isUpList) {
+			for _, ch := range chainsOf[w] {
+				if a := eng.Args(ch[len(ch)-1].Call); len(a) >= 2 && sl.DerivesFrom(c19RefUp(ch, a[1]).Root, isUpList) {
 					named = true
 				}
 			}
